@@ -806,4 +806,117 @@ theorem pullEvents_coverAll (cs : CharSpec) (ext : Ext) (input : List Char) :
     exact (foldl_runBlock_coverAll cs ext false _ (fun _ => False) (_, none) hz hbl rfl
       (fun _ h => h.elim)).2 b hb t htb hct
 
+/-! ### letters and digits -/
+
+/-- what the property needs of the character tables: a letter or digit (`char::is_alphanumeric`)
+    is not white space (neither `char::is_whitespace` nor the lexer's whitespace class) and is none
+    of the characters `>`, `=`, backslash, LF, CR.  True of the Unicode tables of the
+    implementation. -/
+structure AlnumSpec (cs : CharSpec) : Prop where
+  notWs : ∀ c, cs.alnum c = true → cs.uws c = false ∧ cs.ws c = false
+  notSyntax : ∀ c, cs.alnum c = true → c ≠ '>' ∧ c ≠ '=' ∧ c ≠ '\\' ∧ c ≠ '\n' ∧ c ≠ '\r'
+
+theorem singleKind_eq_char {c : Char} (h : singleKind c = some .eq) : c = '=' := by
+  unfold singleKind at h
+  cases hf : singleTable.find? (fun p => p.1 == c) with
+  | none => rw [hf] at h; simp at h
+  | some q =>
+    rw [hf] at h
+    simp only [Option.map_some, Option.some.injEq] at h
+    have hm := List.mem_of_find?_eq_some hf
+    have hq := List.find?_some hf
+    have hc : q.1 = c := by simpa using hq
+    have tbl : ∀ q ∈ singleTable, q.2 = TK.eq → q.1 = '=' := by decide
+    rw [← hc]; exact tbl q hm h
+
+/-- a lexed token that is not a comment and contains a letter or digit is a content token -/
+theorem wordy_of_alnum {cs : CharSpec} (hs : AlnumSpec cs) {t : Tok} {nx : Option Char}
+    (hsp : spellOK cs t.kind t.text nx = true) (hlc : t.kind ≠ .lineComment) (hbc : t.kind ≠ .blockComment)
+    {c : Char} (hc : c ∈ t.text) (ha : cs.alnum c = true) : Wordy cs t := by
+  have hu := (hs.notWs c ha).1
+  have hws := (hs.notWs c ha).2
+  obtain ⟨n1, n2, n3, n4, n5⟩ := hs.notSyntax c ha
+  have generic : (t.kind ≠ .newline ∧ t.kind ≠ .escaped ∧ t.kind ≠ .ws ∧ t.kind ≠ .metaStart ∧
+      t.kind ≠ .eq ∧ t.kind ≠ .textStep) → Wordy cs t := by
+    rintro ⟨h1, h2, h3, h4, h5, h6⟩
+    refine ⟨⟨c, ?_, hu⟩, h1, h3, h4, h5, h6⟩
+    unfold vis
+    split <;> first | contradiction | exact hc
+  cases htxt : t.text with
+  | nil => rw [htxt] at hc; cases hc
+  | cons x r =>
+    rw [htxt] at hsp hc
+    by_cases k1 : t.kind = .newline
+    · exfalso
+      rw [k1] at hsp
+      simp only [spellOK, Bool.or_eq_true, Bool.and_eq_true, beq_iff_eq, List.isEmpty_iff] at hsp
+      rcases hsp with ⟨rfl, rfl⟩ | ⟨rfl, rfl⟩
+      · simp at hc; exact n4 hc
+      · simp at hc; rcases hc with hc | hc
+        · exact n5 hc
+        · exact n4 hc
+    by_cases k2 : t.kind = .escaped
+    · rw [k2] at hsp
+      simp only [spellOK, Bool.and_eq_true, beq_iff_eq] at hsp
+      obtain ⟨rfl, -⟩ := hsp
+      have hcr : c ∈ r := by
+        simp only [List.mem_cons] at hc
+        rcases hc with hc | hc
+        · exact absurd hc n3
+        · exact hc
+      refine ⟨⟨c, ?_, hu⟩, k1, by simp [k2], by simp [k2], by simp [k2], by simp [k2]⟩
+      unfold vis
+      rw [k2, htxt]
+      exact hcr
+    by_cases k3 : t.kind = .ws
+    · exfalso
+      rw [k3] at hsp
+      simp only [spellOK, Bool.and_eq_true] at hsp
+      obtain ⟨⟨⟨-, hx⟩, hr⟩, -⟩ := hsp
+      simp only [List.mem_cons] at hc
+      rcases hc with rfl | hc
+      · rw [hws] at hx; cases hx
+      · rw [List.all_eq_true] at hr
+        have := hr c hc
+        rw [hws] at this; cases this
+    by_cases k4 : t.kind = .metaStart
+    · exfalso
+      rw [k4] at hsp
+      simp only [spellOK, Bool.and_eq_true, beq_iff_eq] at hsp
+      obtain ⟨rfl, rfl⟩ := hsp
+      simp at hc
+      exact n1 hc
+    by_cases k5 : t.kind = .eq
+    · exfalso
+      rw [k5] at hsp
+      simp only [spellOK, Bool.and_eq_true, beq_iff_eq, List.isEmpty_iff] at hsp
+      obtain ⟨rfl, hk⟩ := hsp
+      have := singleKind_eq_char hk
+      simp at hc
+      exact n2 (hc.trans this)
+    by_cases k6 : t.kind = .textStep
+    · exfalso
+      rw [k6] at hsp
+      simp only [spellOK, Bool.and_eq_true, beq_iff_eq, List.isEmpty_iff] at hsp
+      obtain ⟨⟨rfl, rfl⟩, -⟩ := hsp
+      simp at hc
+      exact n1 hc
+    · rw [← htxt] at hc
+      exact generic ⟨k1, k2, k3, k4, k5, k6⟩
+
+/-- **letters and digits of the body**: every token of the token stream that is not a comment and
+    contains a letter or digit is covered by an event -/
+theorem pullEvents_alnum_covered (cs : CharSpec) (hs : AlnumSpec cs) (ext : Ext) (input : List Char)
+    (t : Tok) (ht : t ∈ bodyToks cs input) (hlc : t.kind ≠ .lineComment) (hbc : t.kind ≠ .blockComment)
+    (c : Char) (hc : c ∈ t.text) (ha : cs.alnum c = true) :
+    CoveredBy (pullEvents (α := α) cs ext input).1 t := by
+  apply pullEvents_coverAll cs ext input t ht
+  have hwsp : WellSpelled cs (bodyToks cs input) := by
+    unfold bodyToks
+    split
+    · exact lexFrom_wellSpelled cs _ _
+    · exact lexFrom_wellSpelled cs _ _
+  obtain ⟨nx, hsp⟩ := wellSpelled_mem hwsp ht
+  exact wordy_of_alnum hs hsp hlc hbc hc ha
+
 end Cook
